@@ -36,6 +36,16 @@ func (e *Env) child() *Env {
 func (x *X) resolveType(pkg *types.Package, expr string) types.Type {
 	tv, err := types.Eval(x.prog.Fset, pkg, token.NoPos, expr)
 	if err != nil || tv.Type == nil {
+		// names of imported packages live in file scopes: try each file of the package
+		if pp := x.prog.PPkgs[pkg.Path()]; pp != nil {
+			for _, f := range pp.Syntax {
+				if tv2, err2 := types.Eval(x.prog.Fset, pkg, f.End()-1, expr); err2 == nil && tv2.Type != nil {
+					return tv2.Type
+				}
+			}
+		}
+	}
+	if err != nil || tv.Type == nil {
 		panic(fmt.Sprintf("contract: cannot resolve type %q in package %s: %v", expr, pkg.Name(), err))
 	}
 	return tv.Type
@@ -330,6 +340,26 @@ func (x *X) evalBinary(env *Env, e *ast.BinaryExpr) TV {
 func (x *X) evalCall(env *Env, e *ast.CallExpr) TV {
 	boolT := types.Typ[types.Bool]
 	if id, ok := e.Fun.(*ast.Ident); ok {
+		if tv, isVar := env.vars[id.Name]; isVar {
+			if clo, isClo := tv.V.(Clo); isClo && clo.Fn != nil {
+				var args []Val
+				for i, ae := range e.Args {
+					a := x.eval(env, ae)
+					pt := clo.Fn.Signature.Params().At(i).Type()
+					if a.V == nil && a.T == nil {
+						a = TV{x.zero(pt), pt}
+					}
+					args = append(args, a.V)
+				}
+				x.noOblig++
+				save := x.st
+				x.st = save.clone()
+				r := x.callStatic(clo.Fn, args, clo.Free, nil)
+				x.st = save
+				x.noOblig--
+				return TV{r, resultType(clo.Fn.Signature)}
+			}
+		}
 		switch id.Name {
 		case "imp":
 			x.polarity = -x.polarity
